@@ -539,14 +539,22 @@ func runC16(c *Ctx) {
 		core.EachInstr(fn, func(in ssa.Instruction) {
 			if call, isCall := in.(*ssa.Call); isCall && call.Call.StaticCallee() != nil && call.Call.StaticCallee().Name() == "base64URLEncode" &&
 				strings.HasSuffix(core.Path(call.Call.Args[0]), ".aad") {
-				if guardOn(call.Block(), func(a core.Atom) bool { return strings.HasSuffix(a.L, ".aad") && a.Op == "!=" }) {
+				// the serialisations cannot tell an empty "aad" from an absent one (the member is omitted when empty), so the
+				// guard must be on the length: an empty non-nil slice given to EncryptWithAuthData is "no additional data"
+				if guardOn(call.Block(), func(a core.Atom) bool {
+					return strings.HasPrefix(a.L, "len(") && strings.HasSuffix(a.L, ".aad)") && (a.Op == ">" || a.Op == "!=") && a.R == "0"
+				}) {
 					ok = true
 				}
 			}
 		})
 		R.Check(ok, "C16.aad", "jose|(JsonWebEncryption).computeAuthData|aad-appended-iff-present", P.Pos(fn.Pos()),
-			"'.' + base64url(aad) is appended exactly when additional data is present", "the additional authenticated data is not appended under an 'aad present' guard", nil)
+			"'.' + base64url(aad) is appended exactly when the additional data is non-empty",
+			"the additional authenticated data is not appended under a 'len(aad) > 0' guard: with a nil-ness test an empty non-nil aad is authenticated as '<protected>.' when encrypting but as '<protected>' after parsing (the empty member is not serialised), so the object cannot be decrypted", nil)
 	}
+	checkJoseParseKeepsProtected(c)
+	checkJoseInflateWhole(c)
+	checkJoseTriesEveryRecipient(c)
 
 	// ---- C16.width: EC coordinates are serialised at the curve's full octet length (RFC 7518 6.2.1.2, RFC 7638)
 	nCoord := 0
@@ -597,4 +605,168 @@ func runC16(c *Ctx) {
 		R.Check(n == 2, "C16.width", "jose|(ecDecrypterSigner).signPayload|fixed-width-r-s", P.Pos(es.Pos()),
 			"r and s are right-aligned into fixed-width buffers", fmt.Sprintf("ECDSA r and s are not both left-padded to the curve byte size (%d padded copies found)", n), nil)
 	}
+}
+
+
+// checkJoseParseKeepsProtected: a parsed JWS keeps the received protected header bytes for every signature (computeAuthData
+// authenticates those bytes; without them it falls back to a re-serialisation that forgives alterations).
+func checkJoseParseKeepsProtected(c *Ctx) {
+	P, R := c.P, c.R
+	fn := P.Func("https/jose", "(*rawJsonWebSignature).sanitized")
+	if !R.Anchor(fn != nil, "C16.aad", "https/jose.(*rawJsonWebSignature).sanitized") {
+		return
+	}
+	n, bad := 0, ""
+	core.EachInstr(fn, func(in ssa.Instruction) {
+		st, ok := in.(*ssa.Store)
+		if !ok || !strings.HasSuffix(core.Path(st.Addr), ".original") {
+			return
+		}
+		al, isAlloc := core.StripConv(st.Val).(*ssa.Alloc)
+		if !isAlloc {
+			return
+		}
+		n++
+		// either a whole-struct copy of the received signature entry, or a literal whose Protected is the received one
+		okOne := false
+		for _, r := range *al.Referrers() {
+			switch u := r.(type) {
+			case *ssa.Store:
+				if u.Addr == ssa.Value(al) {
+					okOne = true // *original = sig (whole received entry)
+				}
+			case *ssa.FieldAddr:
+				if fieldNameOf(u) == "Protected" {
+					for _, r2 := range *u.Referrers() {
+						if s2, isS := r2.(*ssa.Store); isS && strings.HasSuffix(core.Path(s2.Val), ".Protected") {
+							okOne = true
+						}
+					}
+				}
+			}
+		}
+		if !okOne {
+			bad = P.InstrPos(st)
+		}
+	})
+	R.Check(n >= 2 && bad == "", "C16.aad", "jose|(*rawJsonWebSignature).sanitized|keeps-received-protected-header", P.Pos(fn.Pos()),
+		"every parsed signature keeps the received protected header bytes",
+		"a parsed signature (stored at "+bad+") does not keep the received protected header bytes: verification then authenticates a re-serialised header, so alterations that parse to the same values (member-name case, spare base64 bits) are accepted", nil)
+}
+
+// checkJoseInflateWhole: the decompressed plaintext is the whole stream - no size-limiting wrapper that ends early
+// without an error.
+func checkJoseInflateWhole(c *Ctx) {
+	P, R := c.P, c.R
+	fn := P.Func("https/jose", "inflate")
+	if !R.Anchor(fn != nil, "C16.gate", "https/jose.inflate") {
+		return
+	}
+	n, bad := 0, ""
+	core.EachInstr(fn, func(in ssa.Instruction) {
+		call, ok := in.(*ssa.Call)
+		if !ok || call.Call.StaticCallee() == nil {
+			return
+		}
+		switch core.FullName(call.Call.StaticCallee()) {
+		case "io.Copy", "ioutil.ReadAll", "io.ReadAll":
+			n++
+			src := call.Call.Args[len(call.Call.Args)-1]
+			if core.FullName(call.Call.StaticCallee()) == "io.Copy" {
+				src = call.Call.Args[1]
+			}
+			src = core.StripConv(src)
+			if sc, isCall := src.(*ssa.Call); !isCall || sc.Call.StaticCallee() == nil || core.FullName(sc.Call.StaticCallee()) != "flate.NewReader" {
+				bad = "the source read at " + P.InstrPos(call) + " is not the flate reader itself"
+			}
+		}
+	})
+	R.Check(n >= 1 && bad == "", "C16.gate", "jose|inflate|whole-stream", P.Pos(fn.Pos()),
+		"the plaintext returned is the whole decompressed stream",
+		"the decompressed plaintext can be cut without an error ("+bad+"): Decrypt would return a prefix of the payload as if it were the payload", nil)
+}
+
+// checkJoseTriesEveryRecipient: the recipient loop of Decrypt is left early only after a successful content decryption
+// (an unwrap that "succeeds" with a wrong key - RSA1_5 returns a random key by design - must not stop the search).
+func checkJoseTriesEveryRecipient(c *Ctx) {
+	P, R := c.P, c.R
+	fn := P.Func("https/jose", "(JsonWebEncryption).Decrypt")
+	if !R.Anchor(fn != nil, "C16.gate", "https/jose.(JsonWebEncryption).Decrypt") {
+		return
+	}
+	var dec *ssa.Call
+	core.EachInstr(fn, func(in ssa.Instruction) {
+		if call, ok := in.(*ssa.Call); ok && call.Call.IsInvoke() && call.Call.Method.Name() == "decrypt" {
+			dec = call
+		}
+	})
+	if !R.Anchor(dec != nil, "C16.gate", "content decrypt call in the recipient loop of Decrypt") {
+		return
+	}
+	// loop header: the innermost header dominating the call
+	var hdr *ssa.BasicBlock
+	for _, b := range fn.Blocks {
+		isHeader := false
+		for _, pr := range b.Preds {
+			if b.Dominates(pr) {
+				isHeader = true
+			}
+		}
+		if isHeader && b.Dominates(dec.Block()) {
+			if hdr == nil || hdr.Dominates(b) {
+				hdr = b
+			}
+		}
+	}
+	if !R.Anchor(hdr != nil, "C16.gate", "recipient loop of Decrypt") {
+		return
+	}
+	inLoop := loopBlocks(fn, hdr)
+	bad := ""
+	if !inLoop[dec.Block()] {
+		bad = P.InstrPos(dec) + " (every path through the content decryption leaves the loop: the next recipient is never tried)"
+	}
+	for b := range inLoop {
+		if b == hdr {
+			continue // the loop's own exhaustion test
+		}
+		for idx, s2 := range b.Succs {
+			if inLoop[s2] {
+				continue
+			}
+			// an early exit: must be under "the content decryption returned no error"
+			ok := false
+			facts := core.GuardAtoms(b)
+			for _, a := range facts {
+				if a.Op == "==" && (a.R == "nil" || strings.HasPrefix(a.R, "nil:")) && derivesFrom(a.LV, dec) {
+					ok = true
+				}
+			}
+			if iff, isIf := b.Instrs[len(b.Instrs)-1].(*ssa.If); isIf {
+				if bo, isB := iff.Cond.(*ssa.BinOp); isB && core.IsNilConst(bo.Y) && derivesFrom(bo.X, dec) {
+					if (bo.Op == token.EQL && idx == 0) || (bo.Op == token.NEQ && idx == 1) {
+						ok = true
+					}
+				}
+			}
+			// error returns out of the loop (a failure that ends Decrypt) are not "found"
+			if isReturnBlock(s2) {
+				ok = true
+			}
+			if !ok {
+				bad = P.InstrPos(b.Instrs[len(b.Instrs)-1])
+			}
+		}
+	}
+	R.Check(bad == "", "C16.gate", "jose|(JsonWebEncryption).Decrypt|leaves-recipient-loop-only-after-content-decrypts", P.InstrPos(dec),
+		"the recipient loop ends early only when the content decrypted without error",
+		"the recipient loop is left at "+bad+" without the content decryption having succeeded: a recipient entry whose key unwrap 'succeeds' with a wrong key (RSA1_5 yields a random key by design) hides the later entry that belongs to the caller's key", nil)
+}
+
+func isReturnBlock(b *ssa.BasicBlock) bool {
+	if len(b.Instrs) == 0 {
+		return false
+	}
+	_, ok := b.Instrs[len(b.Instrs)-1].(*ssa.Return)
+	return ok && len(b.Instrs) <= 3
 }
